@@ -274,18 +274,18 @@ func retentionPass(chk lockedChk, ss []*streamEntry, budget time.Duration, par i
 		completed++
 		inputs += retainWarmup + 2*n
 		e := map[string]interface{}{
-			"varies":                              s.varies,
-			"inputs_fed":                          retainWarmup + 2*n,
-			"bytes_fed":                           r.fed,
-			"largest_input_bytes":                 r.largest,
-			"bound_bytes":                         r.bound(),
-			"retained_growth_bytes_after_N":       r.growth(1),
-			"retained_growth_bytes_after_2N":      r.growth(2),
+			"varies":                         s.varies,
+			"inputs_fed":                     retainWarmup + 2*n,
+			"bytes_fed":                      r.fed,
+			"largest_input_bytes":            r.largest,
+			"bound_bytes":                    r.bound(),
+			"retained_growth_bytes_after_N":  r.growth(1),
+			"retained_growth_bytes_after_2N": r.growth(2),
 			"retained_bytes_per_input_between_N_and_2N": float64(r.growth(2)-r.growth(1)) / float64(n),
-			"heap_inuse_growth_bytes_after_2N":    int64(r.inuse[2]) - int64(r.inuse[0]),
-			"heap_objects_growth_after_2N":        int64(r.objs[2]) - int64(r.objs[0]),
-			"live_heap_after_warmup_bytes":        r.alloc[0],
-			"seconds":                             r.seconds,
+			"heap_inuse_growth_bytes_after_2N":          int64(r.inuse[2]) - int64(r.inuse[0]),
+			"heap_objects_growth_after_2N":              int64(r.objs[2]) - int64(r.objs[0]),
+			"live_heap_after_warmup_bytes":              r.alloc[0],
+			"seconds":                                   r.seconds,
 		}
 		per[r.name()] = e
 		for c := 1; c <= 2; c++ {
@@ -329,9 +329,9 @@ func retentionPass(chk lockedChk, ss []*streamEntry, budget time.Duration, par i
 		"bound":             "growth of HeapAlloc (after runtime.GC twice) since the end of the warm-up <= 262144 + 16 * largest input of the stream, at both checkpoints (after N and after 2N inputs)",
 		"per_stream":        per,
 		"max_retained_growth_bytes_per_entry_point": perEntryMax,
-		"streams_over_bound": violations,
-		"samples":            samples,
-		"seconds":            time.Since(t0).Seconds(),
+		"streams_over_bound":                        violations,
+		"samples":                                   samples,
+		"seconds":                                   time.Since(t0).Seconds(),
 	}
 }
 
